@@ -257,6 +257,10 @@ def split_case(draw):
     c["kf"] = val()
     c["kr"] = val()
     c["label"] = draw(st.sampled_from([None, "r1"]))
+    # the constants are re-assigned afterwards (attribute setters or set_k) and everything is asked again
+    c["again"] = draw(st.one_of(st.none(), st.fixed_dictionaries({"kf": st.just(0), "kr": st.just(0), "via": st.sampled_from(["attr", "set_k"])})))
+    if c["again"] is not None:
+        c["again"]["kf"], c["again"]["kr"] = val(), val()
     return c
 
 
@@ -282,6 +286,23 @@ def check_split(ctx, c):
              cl + ["kf:" + type(c["kf"]).__name__, "kr:" + type(c["kr"]).__name__])
     U = S.UnitsSystem(**c["sys"])
     r = sut_call("Reaction", build_reaction, c, kf=c["kf"], kr=c["kr"], label=c["label"], units_system=U)
+    split_and_K(c, r, nf, nb)
+    ag = c.get("again")
+    if ag is not None:
+        if ag["via"] == "attr":
+            sut_call("r.kf = ...", setattr, r, "kf", ag["kf"])
+            sut_call("r.kr = ...", setattr, r, "kr", ag["kr"])
+        else:
+            sut_call("set_k", r.set_k, ag["kf"], ag["kr"])
+        ctx.count("split:constants-reassigned")
+        try:
+            split_and_K(dict(c, kf=ag["kf"], kr=ag["kr"]), r, nf, nb)
+        except Violation as e:
+            raise Violation("after the constants were re-assigned (%s) from kf=%r kr=%r to kf=%r kr=%r: %s" % (
+                ag["via"], c["kf"], c["kr"], ag["kf"], ag["kr"], e), key=e.key + ":reassigned")
+
+
+def split_and_K(c, r, nf, nb):
     fwd, rev = sut_call("split", r.split)
     check_vectors(fwd, c, "split()[0]")
     swapped = dict(c, sub=c["prod"], prod=c["sub"])
